@@ -166,6 +166,41 @@ sys.exit(0 if ok else 1)
 """)
             elif len(samples) < 3:
                 samples.append({"package": name, "zstd": lvl, "bytes": len(data), "header": list(data[:10])})
+        # one configuration object used for several encodings, its fields changed in between (EnvelopeConfig is a
+        # mutable dataclass): every envelope describes the configuration it was written with
+        evaluations += 1
+        try:
+            cfg = E.EnvelopeConfig(format=E.EnvelopeFormat.JSON, zstd=None)
+            seq = []
+            for lvl in (None, 3, None, 0, 1):
+                cfg.zstd = lvl
+                data = p.to_bytes(cfg)
+                seq.append((lvl, data[:10], docs(Package.from_bytes(data)) == want, (data[9] & 1) == int(lvl is not None)))
+            data_t = p.to_bytes(E.EnvelopeConfig.TEXT)
+            data_b = p.to_bytes(E.EnvelopeConfig.BINARY)
+            ok = all(a and b for (_l, _h, a, b) in seq) and docs(Package.from_bytes(data_t)) == want and docs(Package.from_bytes(data_b)) == want
+            detail = str([(l, list(h), a, b) for (l, h, a, b) in seq])
+        except Exception as e:  # noqa: BLE001
+            ok, detail = False, repr(e)
+        if not ok and len(violations) < 6:
+            fail("package round trip with a reused configuration object", f"{name}: {detail}"[:600], f"""
+from bounded.c09 import packages, docs
+import hugr.envelope as E
+from hugr.package import Package
+p = dict(packages())[{name!r}]
+cfg = E.EnvelopeConfig(format=E.EnvelopeFormat.JSON, zstd=None)
+bad = 0
+for lvl in (None, 3, None, 0, 1):
+    cfg.zstd = lvl
+    data = p.to_bytes(cfg)
+    try:
+        same = docs(Package.from_bytes(data)) == docs(p)
+    except Exception as e:
+        same = repr(e)
+    print(lvl, list(data[:10]), same)
+    bad += same is not True or (data[9] & 1) != int(lvl is not None)
+sys.exit(1 if bad else 0)
+""")
         # text form
         evaluations += 1
         try:
